@@ -90,7 +90,7 @@ def run(ctx):
                        "some request > 0 and some fair share > 0; distinct by (total,k,queues)")
     ctx.assumptions += [
         "fair shares are judged in 1/1000 units with a tolerance of 2/1000 per queue (float rounding)",
-        "the 2-level recursion of proportion.setFairShareForQueues is re-implemented in the harness (total := parent's real fair share); the session-level recursion is validated by the cluster traces",
+        "the 2-level recursion of proportion.setFairShareForQueues is re-implemented in the harness (total := parent's real fair share); the session-level recursion of the real plugin is validated on cluster traces: profiles mixed / full and profile quota (departments with zero quota and weight in some or all resources, children over-subscribing the parent, limits below quotas) - gpu with the full contract, cpu and memory with its bounds (lower, upper, conservation)",
         "TLC, CommunityModules Json, the harness conversion float<->milli-units are trusted",
     ]
     traces = []
@@ -112,7 +112,7 @@ def run(ctx):
     # the hierarchical recursion of the real proportion plugin: every QueueInfo of real sessions is judged
     # level by level with the same contract (Cluster!C09_SessionContract)
     n = 200 if ctx.quick else 4000
-    st_cluster.run_stage(ctx, ["C09_"], [("mixed", n // 2), ("full", n // 2)])
+    st_cluster.run_stage(ctx, ["C09_"], [("mixed", n // 2), ("full", n // 2), ("quota", n * 2)])
 
 
 def replay(ctx, obj):
